@@ -61,6 +61,7 @@ var (
 	SiteWrite    = SiteID("Write")
 	SiteVisit    = SiteID("Visit")
 	SiteOther    = SiteID("other")
+	SiteInner    = SiteID("inner")
 	siteByString = map[string]int{"Read": SiteRead, "Read.ret": SiteReadRet, "Seek": SiteSeek, "Seek.ret": SiteSeekRet, "ReadAt": SiteReadAt, "Write": SiteWrite, "Visit": SiteVisit, "call": SiteCall}
 )
 
@@ -150,6 +151,67 @@ func Yield(site int) {
 
 var active bool
 
+// Inner yields: in the instrumented build every function entry and loop iteration of the
+// library calls YieldInner. Parking at each of them would drown the run in scheduler steps,
+// so each task parks only at every period-th call (periods are drawn from the tape per
+// task). The caller is identified by the baton (only its holder runs), which costs nothing.
+var (
+	innerPeriod []int
+	innerCount  []int
+)
+
+// SetInnerPeriods arms inner yields for the next Run (nil disables them).
+func SetInnerPeriods(p []int) {
+	innerPeriod = p
+	innerCount = make([]int, len(p))
+	copy(innerCount, p)
+}
+
+// mayRunFree counts tasks that were found waiting on a lock of the code under test and have
+// not yet been seen parked again: such a task continues on its own once the lock is
+// released, without holding the baton, so while there is one the cheap "caller == baton
+// holder" identification is not safe and the caller is identified by its goroutine id.
+var mayRunFree int
+
+//go:norace
+func freeRunners() int { return mayRunFree }
+
+//go:norace
+func addFreeRunner(d int) { mayRunFree += d }
+
+//go:norace
+func innerDue() int {
+	me := baton
+	if me < 0 || me >= len(innerPeriod) || innerPeriod[me] <= 0 {
+		return -1
+	}
+	innerCount[me]--
+	if innerCount[me] > 0 {
+		return -1
+	}
+	innerCount[me] = innerPeriod[me]
+	return me
+}
+
+// YieldInner is the hook of the instrumented library build.
+func YieldInner() {
+	if !active {
+		return
+	}
+	if freeRunners() > 0 && whoAmI(curGoid()) != getBaton() {
+		return // a task released from a lock, running without the baton: no inner preemption
+	}
+	me := innerDue()
+	if me < 0 {
+		return
+	}
+	parkNR(me, SiteInner)
+	for getBaton() != me {
+		runtime.Gosched()
+	}
+	setState(me, stRunning)
+}
+
 // Result of a scheduled run.
 type Result struct {
 	Steps    int
@@ -172,6 +234,7 @@ func Run(t *core.Tape, bodies []func()) Result {
 	sites = make([]int, n)
 	goids = make([]uint64, n)
 	setBaton(schedID)
+	mayRunFree = 0
 	active = true
 	defer func() { active = false }()
 	var wg sync.WaitGroup
@@ -261,6 +324,7 @@ func Run(t *core.Tape, bodies []func()) Result {
 				if isMutexBlocked(goidOf(pick)) {
 					// stable: the owner of the lock is parked and cannot release it before we decide
 					setState(pick, stBlocked)
+					addFreeRunner(1)
 					setBaton(schedID)
 					res.Blocked++
 					break
@@ -290,6 +354,7 @@ func settle(n int, res *Result) bool {
 		for {
 			s := getState(i)
 			if s == stParked || s == stDone {
+				addFreeRunner(-1)
 				break
 			}
 			// let woken goroutines run
@@ -298,6 +363,7 @@ func settle(n int, res *Result) bool {
 			}
 			s = getState(i)
 			if s == stParked || s == stDone {
+				addFreeRunner(-1)
 				break
 			}
 			if isMutexBlocked(goidOf(i)) {
